@@ -247,7 +247,7 @@ func (kc *Cache[V]) Locus() []byte {
 // for the leading nbits.  If nbits < len(prefix/8) it panics.
 func (kc *Cache[V]) ForEachMatching(prefix []byte, nbits int, fn func(Entry[V]) bool) {
 	l := nbits / 8
-	if l%8 > 0 {
+	if nbits%8 > 0 {
 		l++
 	}
 	kc.ForEach(prefix[:l], func(e Entry[V]) bool {
